@@ -162,8 +162,8 @@ theorem load_saveData {ν : Type} (g : Grid ν) (ht : 0 < g.dtype.bytes) (hb : g
 /-! ## 4. the header is parsed back to what was written -/
 
 /-- **header round trip** (`parse (write g) = meta g`): for every supported dtype, either byte-order letter, every
-shape, any georeferencing numbers, any no-data value and any single-line name / comment / parent attributes,
-the text written by `Grid.save` is split into the same lines, every line is accepted, and `from_stream` builds
+shape, any georeferencing numbers, any no-data value, ANY name and comment (line breaks included: `save` writes
+them as blanks) and any parent attributes, the text written by `Grid.save` is split into the same lines, every line is accepted, and `from_stream` builds
 a grid with the same shape, corner, cell size, dtype, byte order and no-data word (fresh zero data, default
 bounds). External facts used: `float(str(x)) = x` and "`str(x)` has no white space" (`IOok`), and for float
 no-data values `NodataPrintable`. -/
@@ -183,10 +183,16 @@ theorem header_roundtrip {ν : Type} (io : NumIO ν) (hio : IOok io) (bo : ByteO
   have nlF : ∀ x, NoNL (io.showF x) := fun x => (hio.showF_token x).noNL
   have nlI : ∀ i, NoNL (intStr i) := fun i => (intStr_noSpace i).noNL
   have nlN : ∀ n, NoNL (natStr n) := fun n => (natStr_noSpace n).noNL
-  have hcomment : NoNL (if g.comment = [] then "No comment".toList else g.comment) := by
+  have hcomment : NoNL (if oneLine g.comment = [] then "No comment".toList else oneLine g.comment) := by
     split
     · decide
-    · exact hg.comment_line
+    · exact oneLine_noNL _
+  have hparent : ∀ a v, lookup g.parent a = some v → NoNL (v.str io) := by
+    intro a v hl
+    cases v with
+    | int n => exact nlI n
+    | num x => exact nlF x
+    | text t => exact hg.parent_text a t hl
   -- line by line
   have e1 := parseLine_int io (Config.init io d) 14 "NROWS".toList g.nrows (by decide) (by decide) (by decide)
   rw [readlines_fmtLine 14 _ _ _ (by decide) (nlI _), parseLines_step io _ _ _ _ e1]
@@ -219,16 +225,16 @@ theorem header_roundtrip {ν : Type} (io : NumIO ν) (hio : IOok io) (bo : ByteO
     (boKey bo)) = c8
   obtain ⟨nv, e9, hnv, hnvnl⟩ := nodata_line io c8 g.dtype g.nodata hg.nodata_lt hg.nodata_printable
   rw [readlines_fmtLine 14 _ _ _ (by decide) hnvnl, parseLines_step io _ _ _ _ e9]
-  have e10 := parseLine_text io (c8.setNodata "nodata_value".toList nv) 14 "NAME".toList g.name (by decide) (by decide)
-  rw [readlines_fmtLine 14 _ _ _ (by decide) hg.name_line, parseLines_step io _ _ _ _ e10]
+  have e10 := parseLine_text io (c8.setNodata "nodata_value".toList nv) 14 "NAME".toList (oneLine g.name) (by decide) (by decide)
+  rw [readlines_fmtLine 14 _ _ _ (by decide) (oneLine_noNL _), parseLines_step io _ _ _ _ e10]
   generalize hc10 : ((c8.setNodata "nodata_value".toList nv).setText (lower "NAME".toList)
-    (lower (strip (joinSp (splitRunsAux true (g.name ++ ['\n'])))))) = c10
-  have e11 := parseLine_text io c10 14 "COMMENT".toList (if g.comment = [] then "No comment".toList else g.comment)
-    (by decide) (by decide)
+    (lower (strip (joinSp (splitRunsAux true (oneLine g.name ++ ['\n'])))))) = c10
+  have e11 := parseLine_text io c10 14 "COMMENT".toList
+    (if oneLine g.comment = [] then "No comment".toList else oneLine g.comment) (by decide) (by decide)
   rw [readlines_fmtLine 14 _ _ _ (by decide) hcomment, parseLines_step io _ _ _ _ e11]
   generalize hc11 : (c10.setText (lower "COMMENT".toList) (lower (strip (joinSp (splitRunsAux true
-    ((if g.comment = [] then "No comment".toList else g.comment) ++ ['\n'])))))) = c11
-  obtain ⟨p, hp⟩ := parseLines_parentBlock io g.parent hg.parent_lines parentAttrs parentAttrs_ok c11
+    ((if oneLine g.comment = [] then "No comment".toList else oneLine g.comment) ++ ['\n'])))))) = c11
+  obtain ⟨p, hp⟩ := parseLines_parentBlock io g.parent hparent parentAttrs parentAttrs_ok c11
   suffices h : ∃ hi, finishConfig io { c11 with parent := p } = .ok hi ∧
       hi.byteorder = bo ∧ hi.grid.nrows = g.nrows ∧ hi.grid.ncols = g.ncols ∧
       hi.grid.xll = g.xll ∧ hi.grid.yll = g.yll ∧ hi.grid.csz = g.csz ∧ hi.grid.dtype = g.dtype ∧
@@ -447,14 +453,14 @@ open HydroVerif.C07
 example : IOok ioToy := ioToy_ok
 example : GridOK ioToy g0 := g0_ok
 example : GridOK ioToy g1 :=
-  ⟨⟨by decide, by decide, by decide, by decide, by decide, by decide, fun a v h => by simp [lookup, g1, g0] at h,
+  ⟨⟨by decide, by decide, by decide, by decide, fun a v h => by simp [lookup, g1, g0] at h,
     fun _ => ⟨by decide, by decide, 2143289344, by decide, by decide⟩⟩, by decide, by decide, by decide, by decide⟩
 
 
 set_option maxRecDepth 8000 in
 /-- the header `Grid.save` writes for `g0` -/
 example : (save ioToy g0).toOption.map (fun p => (p.1, p.2.length)) =
-    some ("NROWS          2\nNCOLS          3\nXLLCORNER      -5\nYLLCORNER      7\nCELLSIZE       2\nNBITS          64\nPIXELTYPE      SIGNEDINT\nBYTEORDER      I\nNODATA_VALUE   -1\nNAME           My Grid\nCOMMENT        No comment\n".toList, 48) := by
+    some ("NROWS          2\nNCOLS          3\nXLLCORNER      -5\nYLLCORNER      7\nCELLSIZE       2\nNBITS          64\nPIXELTYPE      SIGNEDINT\nBYTEORDER      I\nNODATA_VALUE   -1\nNAME           My Grid\nCOMMENT        two lines\n".toList, 48) := by
   decide
 
 /-- … and what `from_stream` makes of it and of the data bytes (an instance of `save_load`): same shape, corner,
